@@ -344,7 +344,9 @@ func (t *liveTree) runOp(op, tmp string) string {
 	case "dryrun":
 		var o Outcome
 		rep := captureColorOutput(func() {
-			o = Guard(func() error { return gtree.MkdirFromRoot(t.root, gtree.WithDryRun(), gtree.WithFileExtensions([]string{".gz"})) })
+			o = Guard(func() error {
+				return gtree.MkdirFromRoot(t.root, gtree.WithDryRun(), gtree.WithFileExtensions([]string{".gz"}))
+			})
 		})
 		if o.Panic != nil || o.Err != nil {
 			return "ERR:" + errStr(o.Err) + fmt.Sprint(o.Panic)
@@ -378,7 +380,9 @@ func (t *liveTree) runOp(op, tmp string) string {
 		for _, e := range model.FSEntries(model.Forest{t.shape}, nil) {
 			mkdirAll(j.Target + "/" + e.Path)
 		}
-		o := Guard(func() error { return gtree.VerifyFromRoot(t.root, gtree.WithTargetDir(j.Target), gtree.WithStrictVerify()) })
+		o := Guard(func() error {
+			return gtree.VerifyFromRoot(t.root, gtree.WithTargetDir(j.Target), gtree.WithStrictVerify())
+		})
 		if o.Panic != nil {
 			return "PANIC"
 		}
@@ -408,8 +412,8 @@ func runC13(c *Ctx) bool {
 		{[]string{"text"}, L},
 		{[]string{"walk", "iter", "json", "text.b6", "dryrun"}, L - 1},
 		{[]string{"walkfail", "walk", "iterbreak", "iter"}, L - 2}, // an aborted walk, then further walks
-		{[]string{"textfail", "text", "jsonfail", "json"}, L - 2},   // a failed write, then further output
-		{[]string{"iterbreak", "iter", "walk", "text"}, L - 2},      // an abandoned iterator, then further operations
+		{[]string{"textfail", "text", "jsonfail", "json"}, L - 2},  // a failed write, then further output
+		{[]string{"iterbreak", "iter", "walk", "text"}, L - 2},     // an abandoned iterator, then further operations
 		{[]string{"mkdirfail", "mkdir", "verifyfail", "verify"}, L - 3},
 		{[]string{"mkdir", "verify"}, L - 2},
 	}
@@ -462,6 +466,26 @@ func runC13(c *Ctx) bool {
 			}
 		}
 		rec(0, nil)
+	}
+	// (a2) deep chains: a node far below the root, operations repeated while the chain grows
+	for _, depth := range []int{12, 17, 18, 19, 33, 40, 70} {
+		i := idx
+		idx++
+		if !c.Mine(i) {
+			continue
+		}
+		h := []string{"N"}
+		for d := 0; d < depth; d++ {
+			h = append(h, "A0l"+[]string{"a", "b"}[d%2])
+			if d%5 == 4 || d >= depth-3 {
+				h = append(h, "O0:"+[]string{"text", "walk", "text.b3", "iter", "dryrun"}[d%5])
+			}
+		}
+		h = append(h, "O0:text", "O0:text", "A0ra", "O0:text.b6", "O0:walk")
+		cs := &Case{Idx: i, Kind: "deep-chain", History: h}
+		c.Journal(cs)
+		evalC13History(c, cs, h)
+		c.Progress(false)
 	}
 	// (b) random sequential histories
 	nRand := c.Pick(400, 8000)
